@@ -50,6 +50,9 @@ func CreateODS(
 	eds *rsmt2d.ExtendedDataSquare,
 ) error {
 	verifMark("ods.create", path, 0)
+	if err := verifFault("ods.create", path, 0); err != nil {
+		return fmt.Errorf("creating ODS file: %w", err)
+	}
 	mod := os.O_RDWR | os.O_CREATE | os.O_EXCL // ensure we fail if already exist
 	f, err := os.OpenFile(path, mod, filePermissions)
 	if err != nil {
@@ -70,6 +73,9 @@ func CreateODS(
 	if errClose := f.Close(); errClose != nil {
 		err = errors.Join(err, fmt.Errorf("closing created ODS file: %w", errClose))
 	}
+	if errF := verifFault("ods.close", path, 0); errF != nil {
+		err = errors.Join(err, fmt.Errorf("closing created ODS file: %w", errF))
+	}
 	verifMark("ods.closed", path, 0)
 
 	return err
@@ -80,6 +86,9 @@ func writeODSFile(f *os.File, axisRoots *share.AxisRoots, eds *rsmt2d.ExtendedDa
 	// buffering gives us ~4x speed up
 	buf := bufio.NewWriterSize(f, writeBufferSize)
 
+	if err := verifFault("ods.hdr", f.Name(), 0); err != nil {
+		return fmt.Errorf("writing header: %w", err)
+	}
 	if err := writeHeader(f, hdr); err != nil {
 		return fmt.Errorf("writing header: %w", err)
 	}
@@ -93,6 +102,9 @@ func writeODSFile(f *os.File, axisRoots *share.AxisRoots, eds *rsmt2d.ExtendedDa
 		return fmt.Errorf("writing ODS: %w", err)
 	}
 
+	if err := verifFault("ods.flush", f.Name(), 0); err != nil {
+		return fmt.Errorf("flushing ODS file: %w", err)
+	}
 	if err := buf.Flush(); err != nil {
 		return fmt.Errorf("flushing ODS file: %w", err)
 	}
@@ -116,6 +128,9 @@ func writeODS(w io.Writer, eds *rsmt2d.ExtendedDataSquare) error {
 				return nil
 			}
 
+			if err := verifFault("ods.share", "", int(i*(eds.Width()/2)+j)); err != nil {
+				return fmt.Errorf("writing share: %w", err)
+			}
 			_, err = w.Write(shr)
 			if err != nil {
 				return fmt.Errorf("writing share: %w", err)
